@@ -159,8 +159,8 @@ func (B *Bounds) sites(fn *ssa.Function) []bSite {
 					continue
 				}
 				desc := sx(bf.canon(x.X)) + "["
-				if x.Low != nil {
-					desc += bf.affString(lo)
+				if x.Low != nil && !(lo.isConst() && lo.k == 0) {
+					desc += bf.affString(lo) // s[0:n] and s[:n] are the same site
 				}
 				desc += ":"
 				if x.High != nil {
